@@ -87,14 +87,22 @@ Theorem C14_conf_unconf_segwit : regroup_law -> forall n tr key prog, In n nets 
     from_confidential b58enc b58dec bech_dec bech_enc bcb c = Ok (u, key, scr).
 Proof. exact (conf_unconf_segwit_l _ _ _ _ _ L). Qed.
 
-(* REFUTED clause ("version-0 programs only with the bech32 constant, version-1 only with bech32m"):
-   the same program under the constant of the other version is recognised and re-encodes differently *)
-Theorem C14_recognised_reencodes_refuted : forall n tr prog, In n nets -> seg_ok tr prog ->
-  exists s' s, decode_type b58dec bech_dec bcb s' = Ok (seg_type tr prog) /\
-    from_bech32 bech_dec bcb s' = Ok (n_bech32 n, seg_ver tr, prog) /\
-    to_bech32 bech_enc bcb (n_bech32 n) (seg_ver tr) prog = Ok s /\ s <> s' /\
-    (exists h d, bech_dec s' = Some (h, d, negb tr) /\ bech_dec s = Some (h, d, tr)).
-Proof. exact (recognised_reencodes_refuted_l _ _ _ _ _ L). Qed.
+(* version-0 programs only with the bech32 constant, version-1 programs only with bech32m:
+   the same program under the constant of the other version is rejected (fix e7c9f3c) *)
+Theorem C14_other_constant_rejected : forall n tr prog s', In n nets -> seg_ok tr prog ->
+  (forall c, bcb prog 8 5 true = Some c -> bech_enc (negb tr) (n_bech32 n) (seg_ver tr :: c) = Some s') ->
+  from_bech32 bech_dec bcb s' = Err /\ decode_type b58dec bech_dec bcb s' = Err.
+Proof. exact (other_constant_rejected_l _ _ _ _ _ L). Qed.
+
+(* any string FromBech32 accepts with version 0 or 1 (all that DecodeType recognises), in either case
+   spelling, re-encodes to its lower-case spelling *)
+Theorem C14_bech32_recognised_reencodes : forall s p v prog,
+  from_bech32 bech_dec bcb s = Ok (p, v, prog) -> n8 v <= 1 ->
+  to_bech32 bech_enc bcb p v prog = Ok (map to_lower s).
+Proof. exact (bech32_recognised_reencodes_l _ _ _ _ _ L). Qed.
+Theorem C14_recognised_bech32_versions : forall s t, decode_bech32 bech_dec bcb s = Ok t ->
+  exists p v prog, from_bech32 bech_dec bcb s = Ok (p, v, prog) /\ n8 v <= 1.
+Proof. exact (recognised_bech32_versions_l _ _ _ _ _ L). Qed.
 
 (* the payment builder's address methods are these encoders *)
 Theorem C14_payment_addresses : forall n hash whash tap key, hash <> [] -> whash <> [] -> length tap = 32%nat ->
@@ -121,14 +129,14 @@ Print Assumptions C14_bech32_forms.
 Print Assumptions C14_blech32_forms.
 Print Assumptions C14_conf_unconf_base58.
 Print Assumptions C14_conf_unconf_segwit.
-Print Assumptions C14_recognised_reencodes_refuted.
+Print Assumptions C14_other_constant_rejected.
+Print Assumptions C14_bech32_recognised_reencodes.
+Print Assumptions C14_recognised_bech32_versions.
 Print Assumptions C14_payment_addresses.
 
-(* REFUTED clause ("re-encodes to itself up to case"): an upper-case blech32 address is decoded by
-   FromBlech32 with the prefix as spelled, and ToBlech32 of that result fails; the lower-case spelling is fine *)
-Theorem C14_blech32_upper_reencode_refuted : exists s p v k pr,
-  from_blech32 s = Ok (p, v, k, pr) /\ to_blech32 p v k pr = Err /\
-  (exists s', from_blech32 (map to_lower s) = Ok (map to_lower p, v, k, pr) /\
-              to_blech32 (map to_lower p) v k pr = Ok s' /\ s' = map to_lower s).
-Proof. exact blech32_upper_reencode_refuted. Qed.
-Print Assumptions C14_blech32_upper_reencode_refuted.
+(* any string FromBlech32 accepts, in either case spelling, re-encodes to its lower-case spelling
+   (blech32 Decode/Encode of C15; the 5->8->5 regrouping of blech32.ConvertBits is a premise) *)
+Theorem C14_blech32_recognised_reencodes : forall s p v k pr, regroup_back_law ->
+  from_blech32 s = Ok (p, v, k, pr) -> to_blech32 p v k pr = Ok (map to_lower s).
+Proof. exact blech32_recognised_reencodes. Qed.
+Print Assumptions C14_blech32_recognised_reencodes.
